@@ -531,6 +531,12 @@ WAITS = {"std::thread::sleep", "std::thread::park", "std::thread::park_timeout",
          "std::sync::Barrier::wait", "std::hint::spin_loop"}
 
 
+# blocking operations of std's channels: the library's own channels are crossbeam's, used through
+# the analysed wrappers; a std channel wait is as unmodelled as a Condvar
+UNMODELLED_CHANNEL_WAITS = {"std::sync::mpsc::Receiver::recv", "std::sync::mpsc::Receiver::recv_timeout", "std::sync::mpsc::Receiver::recv_deadline",
+                            "std::sync::mpsc::SyncSender::send", "std::sync::mpsc::Receiver::iter", "std::thread::scope"}
+
+
 def l3_no_waiting_under_a_lock(ctx, rep):
     """the library never sleeps / parks / spins while it holds one of its locks: a poll loop
     under the sender-slot (or any other) lock waits for progress of threads that need that very
@@ -566,7 +572,7 @@ def l3_no_waiting_under_a_lock(ctx, rep):
     # a condvar wait / park anywhere in the library is a blocking operation whose wake-up none of
     # the wait-for rules models (who signals? on every path? also after a dropped action?): for
     # deadlock freedom it is reported as not decided (fail closed), like an unknown channel in L2
-    cw = [s for s in ctx.prog.sites() if s.ck in WAITS and ("Condvar" in s.ck or "park" in s.ck or "Barrier" in s.ck)]
+    cw = [s for s in ctx.prog.sites() if (s.ck in WAITS and ("Condvar" in s.ck or "park" in s.ck or "Barrier" in s.ck)) or s.ck in UNMODELLED_CHANNEL_WAITS]
     rep.check(not cw, R, "no-unmodelled-blocking-wait", cw[0].where if cw else "", "the library blocks only on its channels, locks and joins (all modelled by L1/L2)",
               "blocking wait(s) %s: the wake-up condition is not modelled by any rule, so absence of a lost wake-up / never-satisfied condition is not decided" % sorted({"%s:%s" % (short(x.body.path), x.ck.split("::")[-1]) for x in cw}))
     # the reducer thread waits for nothing but its queue (and the channels of its subscribers):
